@@ -53,7 +53,7 @@ class TcpclWorld(World):
             proc = self.add_proc(side)
             cfg = ns.config.Config(
                 tls_enable=False,
-                node_id='dtn://%s/' % side.lower(),
+                node_id=(prm.get('node_ids') or {}).get(side, 'dtn://%s/' % side.lower()),
                 keepalive_time=prm['keepalive'][side],
                 idle_time=prm['idle'][side],
                 segment_size_mru=prm['seg_mru'][side],
